@@ -139,6 +139,45 @@ def boundary_obs(hs, qrng):
     return out
 
 
+def support_obs(hs, qrng):
+    """Hierarchical support queries with arguments on several levels at once: compute_supports of all
+    active functions, of a seeded multi-level selection of functions, hmesh_cells of a seeded multi-level
+    selection of cells, and compute_virtual_supports of the global index lists."""
+    L = hs.numlevels
+    out = {}
+    funcs = [[] for _ in range(L)]
+    cells = [[] for _ in range(L)]
+    for l in qrng.sample(range(L), min(L, qrng.randint(2, 3))):
+        nd, nsp = hs.mesh(l).numdofs, hs.mesh(l).numspans
+        for _ in range(qrng.randint(1, 2)):
+            f = tuple(qrng.randrange(int(n)) for n in nd)
+            if f not in funcs[l]:
+                funcs[l].append(f)
+    for l in qrng.sample(range(L), min(L, qrng.randint(2, 3))):
+        nsp = hs.mesh(l).numspans
+        for _ in range(qrng.randint(1, 2)):
+            c = tuple(qrng.randrange(int(n)) for n in nsp)
+            if c not in cells[l]:
+                cells[l].append(c)
+    out['funcs'] = [tl(x) for x in funcs]
+    out['cells'] = [tl(x) for x in cells]
+
+    def dl(d):
+        return [[int(k), tl(v)] for k, v in sorted(d.items())]
+
+    def guard(name, fn):
+        try:
+            out[name] = fn()
+        except Exception as e:  # noqa
+            out[name] = 'err:' + errclass(e) + ':' + str(e)[:80]
+    guard('all', lambda: dl(hs.compute_supports([sorted(a) for a in hs.actfun])))
+    guard('funcs_res', lambda: dl(hs.compute_supports([sorted(x) for x in funcs])))
+    guard('cells_res', lambda: dl(hs.hmesh.hmesh_cells([sorted(x) for x in cells])))
+    guard('virt', lambda: [dl(d) for d in hs.compute_virtual_supports(
+        [g[:lv + 1] for lv, g in enumerate(hs.global_indices())])])
+    return out
+
+
 def observe(hs, status, ret, prevs, full, qrng, light=False, bdq=False):
     o = {'status': status, 'L': int(hs.numlevels)}
     L = hs.numlevels
@@ -200,6 +239,8 @@ def observe(hs, status, ret, prevs, full, qrng, light=False, bdq=False):
         except Exception as e:  # noqa
             qs.append({'l': l, 'k': k, 'cells': tl(cells), 'funcs': tl(funcs), 'error': errclass(e)})
     o['queries'] = qs
+    if bdq and status == 'Ok':
+        o['supq'] = support_obs(hs, qrng)
     if bdq and status == 'Ok':
         # only after successful calls: a refine_region call that fails on an empty selection has already
         # added levels without clearing the index caches (stale ravel_global -> IndexError in boundary());
@@ -349,6 +390,43 @@ def run_random(cfg, seed, nops, cap, full):
     return {'ops': ops, 'obs': obs}
 
 
+def run_chain(cfg, seed, nops, cap, full):
+    """A deep narrow refinement chain: the first call refines all coarse cells except a seeded 'hole' at
+    one end, every later call marks the active cell of the finest level that is closest to the hole
+    (so every call adds a level and the disparity marking has to propagate over several hops)."""
+    rng = random.Random(seed)
+    hs = mk_space(cfg)
+    qrng = random.Random(seed + 1)
+    states = [hs.copy()]
+    ops, obs = [], []
+    cells0 = sorted(hs.hmesh.active[0])
+    nsp = [int(n) for n in hs.mesh(0).numspans]
+    corner = tuple(rng.choice([0, n - 1]) for n in nsp)
+    hole = [corner]
+    # the chain converges to a seeded vertex of the coarse mesh (in level-0 cell coordinates)
+    centre = [float(rng.randint(0, n)) for n in nsp]
+    for k in range(nops):
+        if sum(len(a) for a in hs.hmesh.active) > cap:
+            break
+        if k == 0:
+            sel = [(0, c) for c in cells0 if c not in hole] or [(0, cells0[0])]
+        else:
+            l = max(i for i in range(hs.numlevels) if hs.hmesh.active[i])
+            sc = float(1 << l)
+            act = sorted(hs.hmesh.active[l])
+            best = min(act, key=lambda c: (sum(((ci + 0.5) / sc - x) ** 2 for ci, x in zip(c, centre)), c))   # closest to the vertex
+            sel = [(l, best)]
+            if rng.random() < 0.3 and len(act) > 1:
+                sel.append((l, rng.choice(act)))
+        op = {'kind': 'refine', 'marks': marks_of(sorted(set(sel))), 'container': rng.choice(CONTAINERS), 'trunc': False}
+        status, ret = apply_op(hs, op)
+        prevs = [states[-1]] + ([states[0]] if len(states) > 1 else [])
+        ops.append(op)
+        obs.append(observe(hs, status, ret, prevs, full, qrng, light=(k < nops - 1 and k % 2 == 0), bdq=(k == nops - 1 and os.environ.get('C04_NOBDQ') is None)))
+        states.append(hs.copy())
+    return {'ops': ops, 'obs': obs}
+
+
 def main():
     import pyiga
     assert os.path.realpath(pyiga.__file__).startswith(os.path.realpath(os.environ['VERIF_IMPL_DIR'])), pyiga.__file__
@@ -364,6 +442,8 @@ def main():
                 nodes = [run_history(cfg, case['ops'], full, seed=case.get('seed', 0))]
             elif case['mode'] == 'tree':
                 nodes, info = run_tree(cfg, case['depth'], case['max_nodes'], case.get('seed', 0), full, light=bool(case.get('light')), root_masks=case.get('root_masks'))
+            elif case['mode'] == 'chain':
+                nodes = [run_chain(cfg, case['seed'], case['nops'], case.get('cap', 400), full)]
             else:
                 nodes = [run_random(cfg, case['seed'], case['nops'], case.get('cap', 150), full)]
         except Exception as e:  # noqa
